@@ -11,14 +11,20 @@ def RangeOk (txt : Bytes) (r : Range) : Prop := r.1 ≤ r.2 ∧ r.2 ≤ txt.leng
 
 /-- What every delivered token satisfies. -/
 def TokOk (txt : Bytes) : Token → Prop
-  | .pi t v r => SpanOk txt t ∧ (∀ v', v = some v' → SpanOk txt v') ∧ RangeOk txt r
-  | .comment t r => SpanOk txt t ∧ RangeOk txt r
+  | .pi t v r => SpanOk txt t ∧ (∀ v', v = some v' → SpanOk txt v' ∧ v'.bytes ≠ []) ∧ RangeOk txt r ∧ t.bytes ≠ []
+  | .comment t r => SpanOk txt t ∧ RangeOk txt r ∧
+      -- C08: no "--" inside, no "-" at the end
+      containsSub t.bytes Lit.dashDash = false ∧ t.bytes.getLast? ≠ some bDash
   | .entityDecl n v => SpanOk txt n ∧ SpanOk txt v
   | .elementStart p l s => SpanOk txt p ∧ SpanOk txt l ∧ s ≤ txt.length
-  | .attribute r _ _ p l v => RangeOk txt r ∧ SpanOk txt p ∧ SpanOk txt l ∧ SpanOk txt v
+  | .attribute r _ _ p l v => RangeOk txt r ∧ SpanOk txt p ∧ SpanOk txt l ∧ SpanOk txt v ∧
+      -- C08: no '<' in a delivered attribute value
+      (∀ b ∈ v.bytes, b ≠ bLt)
   | .elementEnd (.close p l) r => SpanOk txt p ∧ SpanOk txt l ∧ RangeOk txt r
   | .elementEnd _ r => RangeOk txt r
-  | .text t r => SpanOk txt t ∧ RangeOk txt r ∧ r = (t.off, t.off + t.bytes.length)
+  | .text t r => SpanOk txt t ∧ RangeOk txt r ∧ r = (t.off, t.off + t.bytes.length) ∧
+      -- C08: no "]]>" in character data
+      (t.bytes.contains bGt && containsSub t.bytes Lit.cdataEnd) = false
   | .cdata t r => SpanOk txt t ∧ RangeOk txt r
 
 /-- strict progress -/
@@ -127,9 +133,12 @@ theorem parseComment_spec {s : Stream} (hs : SOk txt s) (hp : s.startsWith Lit.c
     have := h2.1.pos_le; have := h3.1.pos_le; simp only at *; omega
   split
   · exact spec_of_rspec _ _ _ (errFrom_safe _ _ _ _)
-  · split
+  · rename_i hdd
+    split
     · exact spec_of_rspec _ _ _ (errFrom_safe _ _ _ _)
-    · apply spec_bind _ _ _ (fun _ => True) _ (spec_emit _ _ ⟨hsp, h13.range⟩)
+    · rename_i hld
+      apply spec_bind _ _ _ (fun _ => True) _
+        (spec_emit _ _ ⟨hsp, h13.range, by simpa using hdd, by simpa using hld⟩)
       intro _ _
       exact spec_pure _ _ _ ⟨h13, hlt⟩
 
@@ -142,7 +151,7 @@ theorem parsePi_spec {s : Stream} (hs : SOk txt s) (hp : s.startsWith Lit.piStar
     · exact spec_of_rspec _ _ _ (advance_lit hs Lit.piStart hp (lit_valid _ (by decide)))
     rintro s1 ⟨h1, hp1⟩
     apply spec_bind _ _ _ _ _ (spec_of_rspec _ _ _ (consumeName_spec T txt h1.2))
-    rintro ⟨s2, target⟩ ⟨h2, hsp2, _, _, _⟩
+    rintro ⟨s2, target⟩ ⟨h2, hsp2, _, _, htne⟩
     have h3 := skipSpaces_step T hT h2.2
     apply spec_bind _ _ _ _ _ (spec_of_rspec _ _ _ (consumeChars_spec T txt _ h3.2))
     rintro ⟨s4, content⟩ ⟨h4, hsp4, _, _⟩
@@ -153,10 +162,13 @@ theorem parsePi_spec {s : Stream} (hs : SOk txt s) (hp : s.startsWith Lit.piStar
       have := h2.1.pos_le; have := h3.1.pos_le; have := h4.1.pos_le; have := h5.1.pos_le; simp only at *; omega
     apply spec_bind _ _ _ (fun _ => True)
     · apply spec_emit
-      refine ⟨hsp2, ?_, h15.range⟩
+      refine ⟨hsp2, ?_, h15.range, htne⟩
       intro v' hv'
-      split at hv' <;> simp at hv'
-      subst hv'; exact hsp4
+      split at hv'
+      · rename_i hne
+        simp at hv'
+        subst hv'; exact ⟨hsp4, by simpa using hne⟩
+      · simp at hv'
     intro _ _
     exact spec_pure _ _ _ ⟨h15, hlt⟩
 
@@ -563,8 +575,8 @@ theorem startTagLoop_spec : ∀ (fuel : Nat) (s : Stream), s.rest.length < fuel 
           rintro ⟨s5, q⟩ ⟨h5, hq, _⟩
           simp only at h5 ⊢
           apply spec_bind _ _ _ _ _ (spec_of_rspec _ _ _ (advanceUntil2_spec txt h5.2 q bLt hq (by decide)))
-          rintro ⟨s6, value⟩ ⟨h6, hsv, _, htk⟩
-          simp only at h6 hsv htk ⊢
+          rintro ⟨s6, value⟩ ⟨h6, hsv, _, htk, hnolt⟩
+          simp only at h6 hsv htk hnolt ⊢
           have hvv : ValidUtf8 value.bytes := by
             rw [htk.2.2.2]
             apply valid_prefix _ _ h5.2.utf8
@@ -574,7 +586,8 @@ theorem startTagLoop_spec : ∀ (fuel : Nat) (s : Stream), s.rest.length < fuel 
           apply spec_bind _ _ _ _ _ (spec_of_rspec _ _ _ (consumeByte_spec h6.2 q hq))
           rintro s7 ⟨h7, hp7⟩
           have h27 := Step.trans h2 (Step.trans h3 (Step.trans h4 (Step.trans h5 (Step.trans h6 h7))))
-          apply spec_bind _ _ _ (fun _ => True) _ (spec_emit _ _ ⟨h27.range, hsp, hsl, hsv⟩)
+          apply spec_bind _ _ _ (fun _ => True) _
+            (spec_emit _ _ ⟨h27.range, hsp, hsl, hsv, fun b hb => (hnolt b hb).2⟩)
           intro _ _
           have hlen : s7.rest.length < (s.skipSpaces T).rest.length := by
             have e := h27.1.len
@@ -731,9 +744,10 @@ theorem parseText_spec {s : Stream} (hs : SOk txt s) (b : UInt8) (r : Bytes) (hr
   simp only at h1 hsp hoff htk hlt ⊢
   split
   · exact spec_of_rspec _ _ _ (errAt_safe h1.2 _ _)
-  · apply spec_bind _ _ _ (fun _ => True)
+  · rename_i hcd
+    apply spec_bind _ _ _ (fun _ => True)
     · apply spec_emit
-      refine ⟨hsp, h1.range, ?_⟩
+      refine ⟨hsp, h1.range, ?_, by simpa using hcd⟩
       rw [hoff, htk.2.1]
     intro _ _
     exact spec_pure _ _ _ ⟨h1, hlt⟩
